@@ -7,3 +7,4 @@ Definition k_flow_read_asn1_enumerated : pfun :=
     ] [];
     SReturn (PCall "_read_asn1_integer/header,hint" [(PName "data"); (PName "tag"); (PName "header"); (PName "hint")])
   ] |}.
+Definition k_flow_read_asn1_enumerated_defaults : list (string * pexp) := [("tag", PNone); ("header", PNone); ("hint", PNone)].
